@@ -24,6 +24,7 @@ import (
 	"context"
 	"errors"
 	"fmt"
+	"os"
 	"sort"
 	"strings"
 	"time"
@@ -92,13 +93,20 @@ type c14Fault struct {
 }
 
 type c14Step struct {
-	Op string `json:"op"` // edit | reconcile | finalize | addfin | revstatus | name
+	Op string `json:"op"` // edit | reconcile | finalize | addfin | revstatus | recreate | name
+	// edit / reconcile / recreate: the package concerned ("" = the scenario's first package)
+	Pkg string `json:"pkg,omitempty"`
 	// edit
 	Spec *c14Spec `json:"spec,omitempty"`
 	// reconcile
-	Faults  []c14Fault `json:"faults,omitempty"`
-	Head    string     `json:"head,omitempty"` // registry answer for the package's source: hex digest | "nil" | "err" (opaque error) | "err:<kind>" (c14ErrKinds)
+	Faults  []c14Fault `json:"faults,omitempty"` // o: fail | conflict | crashBefore | crashAfter | fail:<class> (c14Classes)
+	Head    string     `json:"head,omitempty"`   // registry answer for the package's source: hex digest | "nil" | "err" (opaque error) | "err:<kind>" (c14ErrKinds)
 	ParseOK bool       `json:"parseOk,omitempty"`
+	Acts    []c14Act   `json:"acts,omitempty"` // what OTHER clients do right before API call k of this reconcile (c14_world.go)
+	Lag     *c14Lag    `json:"lag,omitempty"`  // how far the informer cache behind the reconciler's client is behind (generator's intent)
+	View    *c14View   `json:"view,omitempty"` // what that cache holds (filled in by the harness from Lag; a parameter of the model)
+	// recreate
+	UID string `json:"uid,omitempty"`
 	// addfin / revstatus
 	Name   string `json:"name,omitempty"`
 	Health string `json:"health,omitempty"`
@@ -107,6 +115,7 @@ type c14Step struct {
 type c14Scn struct {
 	Kind  string    `json:"kind"` // Provider | Configuration | Function | name
 	Pkg   c14Pkg    `json:"pkg"`
+	More  []c14Pkg  `json:"more,omitempty"` // further packages of the same kind, reconciled by the SAME reconciler
 	Revs  []c14Rev  `json:"revs"`
 	Steps []c14Step `json:"steps"`
 	// kind = "name": direct FriendlyID probes
@@ -498,56 +507,105 @@ func c14Run(s *c14Scn) (c14Obs, []Mon, string) {
 		return obs, mons, "trivial/badkind"
 	}
 	st := NewStore(c14Scheme)
-	p := k.newPkg()
-	p.SetName(s.Pkg.Name)
-	p.SetUID(types.UID(s.Pkg.UID))
-	c14ApplySpec(p, s.Pkg.Spec)
-	p.SetCurrentRevision(s.Pkg.CurRev)
-	p.SetCurrentIdentifier(s.Pkg.CurID)
-	if s.Pkg.PausedCond {
-		p.SetConditions(xpv1.ReconcilePaused())
+	seedPkg := func(pk c14Pkg) {
+		p := k.newPkg()
+		p.SetName(pk.Name)
+		p.SetUID(types.UID(pk.UID))
+		c14ApplySpec(p, pk.Spec)
+		p.SetCurrentRevision(pk.CurRev)
+		p.SetCurrentIdentifier(pk.CurID)
+		if pk.PausedCond {
+			p.SetConditions(xpv1.ReconcilePaused())
+		}
+		p.GetObjectKind().SetGroupVersionKind(pkgv1.SchemeGroupVersion.WithKind(k.pkgGK.Kind))
+		st.Seed(p)
 	}
-	p.GetObjectKind().SetGroupVersionKind(pkgv1.SchemeGroupVersion.WithKind(k.pkgGK.Kind))
-	st.Seed(p)
+	// live spec of every package, as the scenario's edits leave it
+	specs := map[string]c14Spec{s.Pkg.Name: s.Pkg.Spec}
+	uids := map[string]string{s.Pkg.Name: s.Pkg.UID}
+	seedPkg(s.Pkg)
+	for _, m := range s.More {
+		if _, dup := specs[m.Name]; dup {
+			continue
+		}
+		specs[m.Name], uids[m.Name] = m.Spec, m.UID
+		seedPkg(m)
+	}
 	for _, r := range s.Revs {
 		c14SeedRev(st, k, r)
 	}
 
+	// ONE reconciler, revisioner, applicator and image-config store per process (as
+	// manager.Setup* builds them), on the cached client, for every package of the kind
+	cl := &c14Client{Store: st, k: k}
+	cl.reset()
 	reg := &c14Registry{}
-	rec := manager.NewReconciler(c14Mgr{c: st},
+	rec := manager.NewReconciler(c14Mgr{c: cl},
 		manager.WithNewPackageFn(k.newPkg),
 		manager.WithNewPackageRevisionFn(k.newRev),
 		manager.WithNewPackageRevisionListFn(k.newRevList),
 		manager.WithRevisioner(manager.NewPackageRevisioner(reg, manager.WithDefaultRegistry(xpkg.DefaultRegistry))),
-		manager.WithConfigStore(xpkg.NewImageConfigStore(st, "crossplane-system")),
+		manager.WithConfigStore(xpkg.NewImageConfigStore(cl, "crossplane-system")),
 	)
 	// an independent instance of the real revisioner, used by the monitors only
 	monReg := &c14Registry{}
 	monRev := manager.NewPackageRevisioner(monReg, manager.WithDefaultRegistry(xpkg.DefaultRegistry))
 
-	curSpec := s.Pkg.Spec
+	// every version of the world, oldest first (what a lagging informer cache may still hold)
+	vers := []c14Ver{c14TakeVer(st, k)}
+	needVers := false // only a scenario with a lagging reconcile needs the history
+	for _, stp := range s.Steps {
+		if stp.Lag != nil {
+			needVers = true
+		}
+	}
+	note := func() {
+		if !needVers {
+			return
+		}
+		if v := c14TakeVer(st, k); v.key != vers[len(vers)-1].key {
+			vers = append(vers, v)
+		}
+	}
+	touchN := 0
+
 	nameOf := map[string]string{} // (package name, digest) -> revision name seen
 	nRec, nGC, lastRes, lastFault := 0, 0, "none", "none"
 	fetchCls, srcEdited := "none", false // class of the first failed fetch, "@edit" if it hit the first reconcile after a source edit
+	world := map[string]bool{}           // which of the new dimensions the scenario exercised (for cls)
+	pkgsSeen := map[string]bool{}
+	stepPkg := func(step *c14Step) string {
+		if step.Pkg != "" {
+			return step.Pkg
+		}
+		return s.Pkg.Name
+	}
 	for i := range s.Steps {
 		step := &s.Steps[i]
+		pn := stepPkg(step)
 		switch step.Op {
 		case "edit":
 			if step.Spec == nil {
 				continue
 			}
-			if step.Spec.Source != curSpec.Source {
+			if _, known := specs[pn]; !known {
+				continue
+			}
+			if step.Spec.Source != specs[pn].Source {
 				srcEdited = true
 			}
-			curSpec = *step.Spec
-			st.Mutate(k.pkgGK, "", s.Pkg.Name, func(u *unstructured.Unstructured) {
-				o := k.newPkg()
-				_ = runtime.DefaultUnstructuredConverter.FromUnstructured(u.Object, o)
-				c14ApplySpec(o, curSpec)
-				m, _ := runtime.DefaultUnstructuredConverter.ToUnstructured(o)
-				m["apiVersion"], m["kind"] = u.Object["apiVersion"], u.Object["kind"]
-				u.Object = normalize(m)
-			})
+			specs[pn] = *step.Spec
+			c14EditPkg(st, k, pn, *step.Spec)
+		case "recreate":
+			// the package is deleted and created again under the same name: a NEW uid, no status;
+			// its old revisions are still there, controlled by the old uid
+			if _, known := specs[pn]; !known || step.UID == "" {
+				continue
+			}
+			st.Remove(k.pkgGK, "", pn)
+			seedPkg(c14Pkg{Name: pn, UID: step.UID, Spec: specs[pn]})
+			uids[pn] = step.UID
+			world["recreated"] = true
 		case "finalize":
 			// the revision reconciler removes its finalizer from deleted revisions
 			for _, u := range st.OfKind(k.revGK) {
@@ -566,8 +624,13 @@ func c14Run(s *c14Scn) (c14Obs, []Mon, string) {
 				_ = unstructured.SetNestedSlice(u.Object, []any{map[string]any{"type": "Healthy", "status": step.Health, "reason": "Env", "lastTransitionTime": "2024-01-01T00:00:00Z"}}, "status", "conditions")
 			})
 		case "reconcile":
+			note()
+			curSpec, known := specs[pn]
+			if !known {
+				continue
+			}
 			nRec++
-			step.ParseOK = c14ParseOK(curSpec.Source)
+			pkgsSeen[pn] = true
 			if hc := c14HeadClass(step.Head); hc != "digest" && fetchCls == "none" {
 				fetchCls = hc
 				if srcEdited {
@@ -577,55 +640,92 @@ func c14Run(s *c14Scn) (c14Obs, []Mon, string) {
 			srcEdited = false
 			reg.answer = step.Head
 			plan := map[int]Outcome{}
+			cl.reset()
 			for _, f := range step.Faults {
 				if _, dup := plan[f.K]; !dup {
-					plan[f.K] = c14Outcome(f.O)
+					o, class := c14FaultOutcome(f.O)
+					plan[f.K] = o
+					if class != "" {
+						cl.classAt[f.K] = class
+						world["class"] = true
+					}
 				}
+			}
+			step.View = nil
+			if step.Lag != nil {
+				step.View = c14MakeView(cl, vers, *step.Lag, pn)
+				if step.View != nil {
+					world["lag"] = true
+				}
+			}
+			if len(step.Acts) > 0 {
+				world["acts"] = true
 			}
 			st.Revive()
 			st.Log = nil
 			st.Plan = func(c CallInfo) Outcome { return plan[c.Index] }
 			before := c14Snapshot(st, k)
 			trace := [][]c14Rev{before}
-			st.After = func(CallInfo) {
+			pre := c14PkgObsOf(st, k, pn)
+			preSnap := map[int][]c14Rev{} // the revisions right before API call k (after what other clients did)
+			preRV := map[int]map[string]string{}
+			postRV := map[int]map[string]string{}
+			st.Before = func(c CallInfo) {
+				for _, a := range step.Acts {
+					if a.K == c.Index {
+						c14DoAct(st, cl, k, pn, a, &touchN)
+						if a.Op == "edit" && a.Spec != nil {
+							specs[pn] = *a.Spec
+						}
+					}
+				}
+				if len(step.Acts) > 0 {
+					note()
+				}
+				preSnap[c.Index] = c14Snapshot(st, k)
+				preRV[c.Index] = c14RVs(st, k)
+			}
+			postSnap := map[int][]c14Rev{} // ... and right after it
+			st.After = func(c CallInfo) {
 				now := c14Snapshot(st, k)
+				postSnap[c.Index] = now
+				postRV[c.Index] = c14RVs(st, k)
 				if !c14SameRevs(trace[len(trace)-1], now) {
 					trace = append(trace, now)
 				}
+				note()
 			}
-			// what the real revisioner resolves for the package as stored (oracle of the
-			// reconcile-level monitors below), checked here against the property's own
+			// the real revisioner on the package as stored, checked against the property's own
 			// statement of what it may answer (c14Expect)
-			pre := c14PkgObsOf(st, k, s.Pkg.Name)
-			wantName, wantKind := c14Expect(s.Pkg.Name, curSpec, pre, step.Head, step.ParseOK)
-			wantRef := ""
-			if ref, perr := name.ParseReference(curSpec.Source, name.WithDefaultRegistry(xpkg.DefaultRegistry)); perr == nil {
-				wantRef = ref.String()
-			}
-			curName := ""
-			if pu := st.Peek(k.pkgGK, "", s.Pkg.Name); pu != nil {
+			if pu := st.Peek(k.pkgGK, "", pn); pu != nil {
 				po := k.newPkg()
 				_ = runtime.DefaultUnstructuredConverter.FromUnstructured(pu.Object, po)
+				lvName, lvKind := c14Expect(pn, curSpec, pre, step.Head, c14ParseOK(curSpec.Source))
+				lvRef := ""
+				if ref, perr := name.ParseReference(curSpec.Source, name.WithDefaultRegistry(xpkg.DefaultRegistry)); perr == nil {
+					lvRef = ref.String()
+				}
 				monReg.answer = step.Head
 				monReg.refs = nil
 				var monErr error
-				if pan := Guard(func() { curName, monErr = monRev.Revision(context.Background(), po) }); pan != "" {
+				var gotName string
+				if pan := Guard(func() { gotName, monErr = monRev.Revision(context.Background(), po) }); pan != "" {
 					addMon("C14:panic", pan)
 				} else {
 					switch {
-					case wantKind == "error" && monErr == nil:
-						addMon("C14:revisioner-ignored-fetch-error", fmt.Sprintf("reconcile %d: Revision returned (%q, nil) although the fetch for source %q failed (%s, class %s; pull %q, recorded %q for %q)", nRec, curName, curSpec.Source, step.Head, c14HeadClass(step.Head), curSpec.Pull, pre.CurRev, pre.CurID))
-					case wantKind != "error" && monErr != nil:
-						addMon("C14:revisioner-unexpected-error", fmt.Sprintf("reconcile %d: Revision failed (%v) although %s (pull %q, registry answer %s)", nRec, monErr, wantKind, curSpec.Pull, c14HeadClass(step.Head)))
-					case monErr == nil && curName != wantName:
-						addMon("C14:revisioner-name-not-from-digest", fmt.Sprintf("reconcile %d: Revision returned %q, the property allows only %q (%s; pull %q, source %q, recorded %q for %q)", nRec, curName, wantName, wantKind, curSpec.Pull, curSpec.Source, pre.CurRev, pre.CurID))
+					case lvKind == "error" && monErr == nil:
+						addMon("C14:revisioner-ignored-fetch-error", fmt.Sprintf("reconcile %d: Revision returned (%q, nil) although the fetch for source %q failed (%s, class %s; pull %q, recorded %q for %q)", nRec, gotName, curSpec.Source, step.Head, c14HeadClass(step.Head), curSpec.Pull, pre.CurRev, pre.CurID))
+					case lvKind != "error" && monErr != nil:
+						addMon("C14:revisioner-unexpected-error", fmt.Sprintf("reconcile %d: Revision failed (%v) although %s (pull %q, registry answer %s)", nRec, monErr, lvKind, curSpec.Pull, c14HeadClass(step.Head)))
+					case monErr == nil && gotName != lvName:
+						addMon("C14:revisioner-name-not-from-digest", fmt.Sprintf("reconcile %d: Revision returned %q for package %s, the property allows only %q (%s; pull %q, source %q, recorded %q for %q)", nRec, gotName, pn, lvName, lvKind, curSpec.Pull, curSpec.Source, pre.CurRev, pre.CurID))
 					}
 					for _, asked := range monReg.refs {
-						if asked != wantRef {
-							addMon("C14:fetched-other-source", fmt.Sprintf("reconcile %d: the registry was asked about %q, the package's source is %q", nRec, asked, wantRef))
+						if asked != lvRef {
+							addMon("C14:fetched-other-source", fmt.Sprintf("reconcile %d: the registry was asked about %q, the package's source is %q", nRec, asked, lvRef))
 						}
 					}
-					if (wantKind == "never" || wantKind == "recorded") && len(monReg.refs) > 0 {
+					if (lvKind == "never" || lvKind == "recorded") && len(monReg.refs) > 0 {
 						addMon("C14:fetched-despite-pull-policy", fmt.Sprintf("reconcile %d: the registry was asked although the pull policy %q lets Revision answer from the package", nRec, curSpec.Pull))
 					}
 				}
@@ -634,12 +734,12 @@ func c14Run(s *c14Scn) (c14Obs, []Mon, string) {
 			var res reconcile.Result
 			var err error
 			if pan := Guard(func() {
-				res, err = rec.Reconcile(context.Background(), reconcile.Request{NamespacedName: types.NamespacedName{Name: s.Pkg.Name}})
+				res, err = rec.Reconcile(context.Background(), reconcile.Request{NamespacedName: types.NamespacedName{Name: pn}})
 			}); pan != "" {
 				addMon("C14:panic", pan)
 				err = errors.New("panic")
 			}
-			st.After = nil
+			st.After, st.Before = nil, nil
 			ro := c14RecObs{Trace: trace}
 			switch {
 			case st.Crashed():
@@ -655,26 +755,174 @@ func c14Run(s *c14Scn) (c14Obs, []Mon, string) {
 			}
 			lastRes = ro.Res
 			log := append([]CallInfo{}, st.Log...)
+			if os.Getenv("C14_DEBUG") != "" {
+				fmt.Fprintf(os.Stderr, "C14 reconcile %d of %s: res=%v err=%v\n", nRec, pn, res, err)
+				for _, c := range log {
+					fmt.Fprintf(os.Stderr, "   %s\n", mustJSON(c))
+				}
+			}
 			if c14LogTap != nil {
 				c14LogTap(log)
 			}
 			for _, c := range log {
 				if c.Outcome != "" && c.Outcome != "ok" {
-					lastFault = c.Outcome + "->" + ro.Res // a fault that actually hit a call, and how that reconcile ended
+					lastFault = c.Outcome // a fault that actually hit a call, and how that reconcile ended
+					if cls := cl.classAt[c.Index]; cls != "" && c.Outcome == "fail" {
+						lastFault += ":" + cls
+					}
+					lastFault += "->" + ro.Res
 				}
 			}
 			st.Revive()
-			ro.Pkg = c14PkgObsOf(st, k, s.Pkg.Name)
+			ro.Pkg = c14PkgObsOf(st, k, pn)
 			obs.Recs = append(obs.Recs, ro)
+			note()
 
 			// ---- direct monitors on the real run ----
-			pn := s.Pkg.Name
-			// (1) never two Active at any instant (given at most one to start with)
+			// The reconcile is judged against the package it was HANDED by its Get (through a lagging
+			// cache an older version; before another client's edit the version before it): that is
+			// "the package's current source" as far as this reconcile can know.
+			seenSpec, seen := curSpec, pre
+			if len(step.Acts) > 0 || step.View != nil {
+				if cl.servedPkg != nil {
+					seenSpec = c14SpecOfU(cl.servedPkg)
+					seen = c14PkgObsOfU(cl.servedPkg)
+				}
+			}
+			step.ParseOK = c14ParseOK(seenSpec.Source)
+			wantName, wantKind := c14Expect(pn, seenSpec, seen, step.Head, step.ParseOK)
+			wantRef := ""
+			if ref, perr := name.ParseReference(seenSpec.Source, name.WithDefaultRegistry(xpkg.DefaultRegistry)); perr == nil {
+				wantRef = ref.String()
+			}
+			curName := ""
+			if wantKind == "never" || wantKind == "recorded" || wantKind == "digest" {
+				curName = wantName
+			}
+			// The recorded findings D28 / D29: the reconcile decided on a revision list that was not the
+			// stored one (served by a lagging cache / a NotFound answer taken as "no revisions"). A
+			// violation of a clause judged against the STORED revisions is reported under the finding's
+			// signature ONLY when that list explains it: the revision left (or found) Active was missing
+			// from the served list or shown not Active there; the numbers (name, number) the list showed
+			// differ from the stored ones. Everything else keeps its own signature, as do the clauses
+			// judged against the list the reconciler was served.
+			staleSig := ""
+			switch {
+			case cl.listNotFound:
+				staleSig = c14ListNotFoundSig
+			case cl.lagging:
+				staleSig = c14StaleListSig
+			}
+			servedAs := map[string]c14Rev{}
+			for _, l := range cl.listed {
+				servedAs[l.Name] = l
+			}
+			// the served list hid that x is Active
+			hidActive := func(x string) bool {
+				if staleSig == "" {
+					return false
+				}
+				l, ok := servedAs[x]
+				return !ok || l.State != string(pkgv1.PackageRevisionActive)
+			}
+			// the served list showed other (name, number) pairs of the package than were stored
+			hidNumbers := false
+			if staleSig != "" {
+				a, b := []string{}, []string{}
+				for _, l := range cl.listed {
+					if l.Parent == pn {
+						a = append(a, fmt.Sprintf("%s#%d", l.Name, l.Number))
+					}
+				}
+				for _, l := range cl.liveAtList {
+					if l.Parent == pn {
+						b = append(b, fmt.Sprintf("%s#%d", l.Name, l.Number))
+					}
+				}
+				sort.Strings(a)
+				sort.Strings(b)
+				hidNumbers = strings.Join(a, ",") != strings.Join(b, ",")
+			}
+			sigIf := func(explained bool, sig string) string {
+				if explained {
+					return staleSig
+				}
+				return sig
+			}
+			// some Active revision of the snapshot other than `but` was hidden by the served list
+			anyHidden := func(snap []c14Rev, but string) bool {
+				for _, r := range snap {
+					if r.Parent == pn && r.State == string(pkgv1.PackageRevisionActive) && r.Name != but && hidActive(r.Name) {
+						return true
+					}
+				}
+				return false
+			}
+			actNames := c14ActNames(step.Acts)
+			quietActs := c14ActsBenign(step.Acts)
+			// (1) never two Active at any instant (given at most one to start with); none of the other
+			// clients' actions activates a revision
 			if c14ActiveCount(before, pn) <= 1 {
 				for ti, snap := range trace {
 					if c14ActiveCount(snap, pn) > 1 {
-						addMon("C14:two-active", fmt.Sprintf("reconcile %d: %d revisions of %s Active at instant %d", nRec, c14ActiveCount(snap, pn), pn, ti))
+						addMon(sigIf(anyHidden(snap, curName), "C14:two-active"), fmt.Sprintf("reconcile %d: %d revisions of %s Active at instant %d", nRec, c14ActiveCount(snap, pn), pn, ti))
 						break
+					}
+				}
+			}
+			// (1b) ... stated on the reconciler's own writes: no write of its own leaves a second
+			// revision of the package Active
+			// (1c) ... and against what it was served: when it writes the current revision Active, every
+			// other revision its List showed Active has been written Inactive by it (or is no longer Active)
+			deactivated := map[string]bool{}
+			held := map[string]string{} // listed revision -> the resourceVersion the reconciler holds of it
+			for n, rv := range cl.listedRV {
+				held[n] = rv
+			}
+			for _, c := range log {
+				if !c.IsWrite() || !c.Applied || c.GK != k.revGK.String() {
+					continue
+				}
+				preS, okPre := preSnap[c.Index]
+				if !okPre {
+					continue
+				}
+				postS, okPost := postSnap[c.Index]
+				if !okPost {
+					continue
+				}
+				stOf := func(snap []c14Rev, n string) string {
+					for _, r := range snap {
+						if r.Name == n && r.Parent == pn {
+							return r.State
+						}
+					}
+					return ""
+				}
+				// (1d) ... and keeping the API server's optimistic concurrency: a revision the reconciler
+				// LISTED is not written Active by it once it has changed since it was handed out (the
+				// write carries the listed resourceVersion and must conflict; a retry that re-reads and
+				// keeps the earlier decision bypasses exactly that)
+				if h, listedIt := held[c.Name]; listedIt && preRV[c.Index][c.Name] != "" && preRV[c.Index][c.Name] != h &&
+					stOf(postS, c.Name) == string(pkgv1.PackageRevisionActive) && stOf(preS, c.Name) != string(pkgv1.PackageRevisionActive) {
+					addMon("C14:activated-over-newer-version", fmt.Sprintf("reconcile %d: %s made %s Active although it had changed (resourceVersion %s -> %s) since the reconciler was handed it", nRec, c.Verb, c.Name, h, preRV[c.Index][c.Name]))
+				}
+				if rv, ok := postRV[c.Index][c.Name]; ok {
+					if _, listedIt := held[c.Name]; listedIt {
+						held[c.Name] = rv
+					}
+				}
+				if c14ActiveCount(postS, pn) >= 2 && c14ActiveCount(postS, pn) > c14ActiveCount(preS, pn) {
+					addMon(sigIf(anyHidden(postS, c.Name), "C14:activated-second-revision"), fmt.Sprintf("reconcile %d: %s %s made %d revisions of %s Active", nRec, c.Verb, c.Name, c14ActiveCount(postS, pn), pn))
+				}
+				if stOf(preS, c.Name) == string(pkgv1.PackageRevisionActive) && stOf(postS, c.Name) != string(pkgv1.PackageRevisionActive) {
+					deactivated[c.Name] = true
+				}
+				if stOf(postS, c.Name) == string(pkgv1.PackageRevisionActive) && stOf(preS, c.Name) != string(pkgv1.PackageRevisionActive) && cl.listedOK {
+					for _, l := range cl.listed {
+						if l.Name != c.Name && l.Parent == pn && l.State == string(pkgv1.PackageRevisionActive) && !deactivated[l.Name] && stOf(preS, l.Name) == string(pkgv1.PackageRevisionActive) {
+							addMon("C14:activated-before-deactivating-listed", fmt.Sprintf("reconcile %d: %s activated by %s while %s, which the List showed Active, is still Active and was not deactivated", nRec, c.Name, c.Verb, l.Name))
+						}
 					}
 				}
 			}
@@ -686,7 +934,7 @@ func c14Run(s *c14Scn) (c14Obs, []Mon, string) {
 					wroteStatus = true
 				}
 			}
-			full := (ro.Res == "ok" || ro.Res == "okAfter") && wroteStatus && curName != "" && pre.Exists && !curSpec.Paused && !pre.PausedCond && ro.Pkg.CurRev == curName
+			full := (ro.Res == "ok" || ro.Res == "okAfter") && wroteStatus && curName != "" && pre.Exists && !seenSpec.Paused && !seen.PausedCond && ro.Pkg.CurRev == curName && quietActs
 			if full {
 				var cur *c14Rev
 				for ri := range final {
@@ -710,19 +958,23 @@ func c14Run(s *c14Scn) (c14Obs, []Mon, string) {
 					}
 					for _, r := range final {
 						if r.Parent == pn && r.Name != curName && (r.Number > cur.Number || (distinct && r.Number == cur.Number)) {
-							addMon("C14:current-not-highest", fmt.Sprintf("current %s has number %d, %s has %d", curName, cur.Number, r.Name, r.Number))
+							addMon(sigIf(hidNumbers, "C14:current-not-highest"), fmt.Sprintf("current %s has number %d, %s has %d", curName, cur.Number, r.Name, r.Number))
+						}
+						// every OTHER revision has been deactivated, however many were Active to start with
+						if r.Parent == pn && r.Name != curName && r.State == string(pkgv1.PackageRevisionActive) {
+							addMon(sigIf(hidActive(r.Name), "C14:other-left-active"), fmt.Sprintf("reconcile %d of %s succeeded, %s is current, %s is still Active", nRec, pn, curName, r.Name))
 						}
 					}
-					if curSpec.Policy != string(pkgv1.ManualActivation) && cur.State != string(pkgv1.PackageRevisionActive) {
+					if seenSpec.Policy != string(pkgv1.ManualActivation) && cur.State != string(pkgv1.PackageRevisionActive) {
 						addMon("C14:current-not-active", fmt.Sprintf("current %s is %q under automatic activation", curName, cur.State))
 					}
-					if cur.Image != curSpec.Source {
-						addMon("C14:current-wrong-image", fmt.Sprintf("current %s has image %q, package source %q", curName, cur.Image, curSpec.Source))
+					if cur.Image != seenSpec.Source {
+						addMon("C14:current-wrong-image", fmt.Sprintf("current %s has image %q, package source %q", curName, cur.Image, seenSpec.Source))
 					}
 				}
 			}
 			// (3) the name is a function of (package name, digest); re-resolving creates nothing new
-			if curName != "" && len(step.Head) == 64 && curSpec.Pull != string(corev1.PullNever) && monReg.heads > 0 {
+			if curName != "" && len(step.Head) == 64 && wantKind == "digest" {
 				key := pn + "|" + step.Head
 				if prev, ok := nameOf[key]; ok && prev != curName {
 					addMon("C14:name-not-function", fmt.Sprintf("(%s,%s) named %s earlier and %s now", pn, step.Head[:12], prev, curName))
@@ -731,8 +983,16 @@ func c14Run(s *c14Scn) (c14Obs, []Mon, string) {
 			}
 			monReg.heads = 0
 			for _, c := range log {
-				if c.Verb == "create" && c.Applied && c.GK == k.revGK.String() && c.Name != curName {
-					addMon("C14:created-non-current", fmt.Sprintf("created %s while the current revision name is %q", c.Name, curName))
+				if c.Verb == "create" && c.Applied && c.GK == k.revGK.String() {
+					if c.Name != curName {
+						addMon("C14:created-non-current", fmt.Sprintf("created %s while the current revision name is %q", c.Name, curName))
+					}
+					// re-resolving an image whose revision exists creates no second revision of the package
+					for _, r := range preSnap[c.Index] {
+						if r.Parent == pn && r.Name == curName && curName != "" {
+							addMon("C14:second-revision-for-same-image", fmt.Sprintf("reconcile %d created %s although revision %s of %s exists", nRec, c.Name, r.Name, pn))
+						}
+					}
 				}
 			}
 			// (3b) the revisioner clauses, evaluated on what the reconcile did. consulted =
@@ -757,20 +1017,26 @@ func c14Run(s *c14Scn) (c14Obs, []Mon, string) {
 					sig = "C14:write-without-digest"
 				}
 				if len(revWrites) > 0 {
-					addMon(sig, fmt.Sprintf("reconcile %d: %s %s although the registry gave no digest for source %q (answer %s, class %s)", nRec, revWrites[0].Verb, revWrites[0].Name, curSpec.Source, step.Head, c14HeadClass(step.Head)))
-				} else if len(trace) > 1 {
-					addMon(sig, fmt.Sprintf("reconcile %d: revisions changed although the registry gave no digest for source %q (class %s)", nRec, curSpec.Source, c14HeadClass(step.Head)))
+					addMon(sig, fmt.Sprintf("reconcile %d: %s %s although the registry gave no digest for source %q (answer %s, class %s)", nRec, revWrites[0].Verb, revWrites[0].Name, seenSpec.Source, step.Head, c14HeadClass(step.Head)))
+				} else if len(trace) > 1 && len(actNames) == 0 {
+					addMon(sig, fmt.Sprintf("reconcile %d: revisions changed although the registry gave no digest for source %q (class %s)", nRec, seenSpec.Source, c14HeadClass(step.Head)))
 				}
 				if statusMoved {
-					addMon(sig, fmt.Sprintf("reconcile %d: status moved from (%q for %q) to (%q for %q) although the registry gave no digest for source %q (class %s)", nRec, pre.CurRev, pre.CurID, ro.Pkg.CurRev, ro.Pkg.CurID, curSpec.Source, c14HeadClass(step.Head)))
+					addMon(sig, fmt.Sprintf("reconcile %d: status moved from (%q for %q) to (%q for %q) although the registry gave no digest for source %q (class %s)", nRec, pre.CurRev, pre.CurID, ro.Pkg.CurRev, ro.Pkg.CurID, seenSpec.Source, c14HeadClass(step.Head)))
 				}
-				if wantKind == "error" && pre.Exists && !curSpec.Paused && !pre.PausedCond && ro.Res != "err" && ro.Res != "crashed" {
-					addMon("C14:fetch-error-not-reported", fmt.Sprintf("reconcile %d returned %s although the fetch for source %q failed (class %s)", nRec, ro.Res, curSpec.Source, c14HeadClass(step.Head)))
+				if wantKind == "error" && cl.servedPkg != nil && !seenSpec.Paused && !seen.PausedCond && ro.Res != "err" && ro.Res != "crashed" {
+					addMon("C14:fetch-error-not-reported", fmt.Sprintf("reconcile %d returned %s although the fetch for source %q failed (class %s)", nRec, ro.Res, seenSpec.Source, c14HeadClass(step.Head)))
 				}
 			}
 			// the recorded current revision is the one resolved for the recorded identifier
-			if statusMoved && !(ro.Pkg.CurID == curSpec.Source && (wantKind == "never" || wantKind == "recorded" || wantKind == "digest") && ro.Pkg.CurRev == wantName) {
-				addMon("C14:current-revision-for-other-source", fmt.Sprintf("reconcile %d recorded current revision %q for identifier %q; source %q resolves to %q (%s)", nRec, ro.Pkg.CurRev, ro.Pkg.CurID, curSpec.Source, wantName, wantKind))
+			if statusMoved && !(ro.Pkg.CurID == seenSpec.Source && (wantKind == "never" || wantKind == "recorded" || wantKind == "digest") && ro.Pkg.CurRev == wantName) {
+				addMon("C14:current-revision-for-other-source", fmt.Sprintf("reconcile %d recorded current revision %q for identifier %q; source %q resolves to %q (%s)", nRec, ro.Pkg.CurRev, ro.Pkg.CurID, seenSpec.Source, wantName, wantKind))
+			}
+			// ... and for the source the package has AT THAT MOMENT: the status write carries the
+			// resourceVersion of the package the reconciler was handed, so it cannot land on a package
+			// somebody edited since (or on one newer than a lagging cache served)
+			if statusMoved && ro.Pkg.CurID != specs[pn].Source {
+				addMon("C14:recorded-identifier-not-live-source", fmt.Sprintf("reconcile %d recorded current revision %q for identifier %q, the package's source is %q by then", nRec, ro.Pkg.CurRev, ro.Pkg.CurID, specs[pn].Source))
 			}
 			// a revision whose image this reconcile wrote (created, or spec.image changed) is
 			// named after the digest the registry serves for that image now
@@ -780,7 +1046,7 @@ func c14Run(s *c14Scn) (c14Obs, []Mon, string) {
 			}
 			for _, snap := range trace[1:] {
 				for _, r := range snap {
-					if old, existed := beforeImg[r.Name]; r.Parent != pn || (existed && old == r.Image) {
+					if old, existed := beforeImg[r.Name]; r.Parent != pn || (existed && old == r.Image) || actNames[r.Name] {
 						continue
 					}
 					bad := ""
@@ -792,8 +1058,8 @@ func c14Run(s *c14Scn) (c14Obs, []Mon, string) {
 					case "recorded":
 						// the recorded revision of the same identifier is trusted: nothing to compare with
 					case "digest":
-						if r.Image != curSpec.Source || r.Name != wantName {
-							bad = fmt.Sprintf("the registry serves digest %.12s for source %q, i.e. revision %q", step.Head, curSpec.Source, wantName)
+						if r.Image != seenSpec.Source || r.Name != wantName {
+							bad = fmt.Sprintf("the registry serves digest %.12s for source %q, i.e. revision %q", step.Head, seenSpec.Source, wantName)
 						}
 					default:
 						bad = fmt.Sprintf("the registry served no digest for %q in this reconcile (class %s)", r.Image, c14HeadClass(step.Head))
@@ -803,47 +1069,77 @@ func c14Run(s *c14Scn) (c14Obs, []Mon, string) {
 					}
 				}
 			}
-			// (4) history GC
-			listed := []c14Rev{}
-			for _, r := range before {
-				if r.Parent == pn {
-					listed = append(listed, r)
-				}
-			}
-			dels := 0
-			for _, c := range log {
-				if c.Verb != "delete" || !c.Applied || c.GK != k.revGK.String() {
-					continue
-				}
-				dels++
-				nGC++
-				if c.Name == curName {
-					addMon("C14:gc-deleted-current", fmt.Sprintf("reconcile %d deleted the current revision %s", nRec, curName))
-				}
-				var victim *c14Rev
-				for ri := range listed {
-					if listed[ri].Name == c.Name {
-						victim = &listed[ri]
-					}
-				}
-				if victim == nil {
-					addMon("C14:gc-foreign", fmt.Sprintf("deleted %s which is not a revision of %s", c.Name, pn))
-				} else {
-					for _, r := range listed {
-						if r.Name != curName && r.Number < victim.Number && victim.Name != curName {
-							addMon("C14:gc-not-oldest", fmt.Sprintf("deleted %s (#%d) although %s (#%d) is older", victim.Name, victim.Number, r.Name, r.Number))
+			// (3c) a reconcile of one package writes no revision of ANOTHER package of the kind
+			for _, c := range revWrites {
+				for _, r := range preSnap[c.Index] {
+					if r.Name == c.Name && r.Parent != "" && r.Parent != pn && r.Ctrl != "" && r.Ctrl != uids[pn] {
+						if _, other := specs[r.Parent]; other {
+							addMon("C14:wrote-revision-of-other-package", fmt.Sprintf("reconcile %d of %s: %s %s, a revision of package %s", nRec, pn, c.Verb, c.Name, r.Parent))
 						}
 					}
 				}
-				if curSpec.Limit == nil || int64(len(listed)) <= *curSpec.Limit+1 {
-					addMon("C14:gc-under-limit", fmt.Sprintf("deleted %s with %d revisions and limit %v", c.Name, len(listed), c14LimitStr(curSpec.Limit)))
+			}
+			// (4) history GC, judged against the revisions the reconciler was served (and, when that
+			// list was not the stored one, against the stored ones under the finding's signature)
+			gcCheck := func(listed []c14Rev, sigOf func(string) string) {
+				dels := 0
+				for _, c := range log {
+					if c.Verb != "delete" || !c.Applied || c.GK != k.revGK.String() {
+						continue
+					}
+					dels++
+					if c.Name == curName {
+						addMon(sigOf("C14:gc-deleted-current"), fmt.Sprintf("reconcile %d deleted the current revision %s", nRec, curName))
+					}
+					var victim *c14Rev
+					for ri := range listed {
+						if listed[ri].Name == c.Name {
+							victim = &listed[ri]
+						}
+					}
+					if victim == nil {
+						addMon(sigOf("C14:gc-foreign"), fmt.Sprintf("deleted %s which is not a revision of %s", c.Name, pn))
+					} else {
+						for _, r := range listed {
+							if r.Name != curName && r.Number < victim.Number && victim.Name != curName {
+								addMon(sigOf("C14:gc-not-oldest"), fmt.Sprintf("deleted %s (#%d) although %s (#%d) is older", victim.Name, victim.Number, r.Name, r.Number))
+							}
+						}
+					}
+					if seenSpec.Limit == nil || int64(len(listed)) <= *seenSpec.Limit+1 {
+						addMon(sigOf("C14:gc-under-limit"), fmt.Sprintf("deleted %s with %d revisions and limit %v", c.Name, len(listed), c14LimitStr(seenSpec.Limit)))
+					}
+					if seenSpec.Limit != nil && *seenSpec.Limit == 0 {
+						addMon(sigOf("C14:gc-at-zero"), "deleted "+c.Name+" although revisionHistoryLimit is 0")
+					}
 				}
-				if curSpec.Limit != nil && *curSpec.Limit == 0 {
-					addMon("C14:gc-at-zero", "deleted "+c.Name+" although revisionHistoryLimit is 0")
+				if dels > 1 {
+					addMon(sigOf("C14:gc-multiple"), fmt.Sprintf("reconcile %d deleted %d revisions", nRec, dels))
 				}
 			}
-			if dels > 1 {
-				addMon("C14:gc-multiple", fmt.Sprintf("reconcile %d deleted %d revisions", nRec, dels))
+			ofPkg := func(l []c14Rev) []c14Rev {
+				out := []c14Rev{}
+				for _, r := range l {
+					if r.Parent == pn {
+						out = append(out, r)
+					}
+				}
+				return out
+			}
+			for _, c := range log {
+				if c.Verb == "delete" && c.Applied && c.GK == k.revGK.String() {
+					nGC++
+				}
+			}
+			served := ofPkg(before)
+			if cl.listedOK {
+				served = ofPkg(cl.listed)
+			} else if cl.listNotFound {
+				served = []c14Rev{}
+			}
+			gcCheck(served, func(s string) string { return s })
+			if hidNumbers {
+				gcCheck(ofPkg(cl.liveAtList), func(string) string { return staleSig })
 			}
 		}
 	}
@@ -852,12 +1148,31 @@ func c14Run(s *c14Scn) (c14Obs, []Mon, string) {
 	if nGC > 0 {
 		gc = "1+"
 	}
-	cls := fmt.Sprintf("rec=%d/pull=%s/policy=%s/gc=%s/fetch=%s/fault=%s/res=%s", nRec, curSpec.Pull, curSpec.Policy, gc, fetchCls, lastFault, lastRes)
+	last := specs[s.Pkg.Name]
+	cls := fmt.Sprintf("rec=%d/pull=%s/policy=%s/gc=%s/fetch=%s/fault=%s/res=%s", nRec, last.Pull, last.Policy, gc, fetchCls, lastFault, lastRes)
+	if len(pkgsSeen) > 1 {
+		cls += fmt.Sprintf("/pkgs=%d", len(pkgsSeen))
+	}
+	var dims []string
+	for d := range world {
+		dims = append(dims, d)
+	}
+	sort.Strings(dims)
+	if len(dims) > 0 {
+		cls += "/world=" + strings.Join(dims, "+")
+	}
 	if nRec == 0 {
 		cls = "trivial/no-reconcile"
 	}
 	return obs, mons, cls
 }
+
+// the recorded findings of the unchanged tree: a reconcile that decided on a revision list
+// which was not the stored one
+const (
+	c14StaleListSig    = "C14:decided-on-stale-revision-list"
+	c14ListNotFoundSig = "C14:revision-list-notfound-taken-as-empty"
+)
 
 func c14LimitStr(l *int64) string {
 	if l == nil {
@@ -1401,7 +1716,28 @@ func init() {
 			}
 		}
 		for i := 0; i < c.N; {
-			switch x := c.Rng.Intn(40); {
+			switch x := c.Rng.Intn(60); {
+			case x >= 40 && x < 49:
+				run(c14GenWorld(c.Rng, c.Tier), "world")
+				i++
+			case x >= 49 && x < 53:
+				run(c14GenStale(c.Rng), "stale")
+				i++
+			case x >= 53 && x < 59:
+				run(c14GenMulti(c.Rng, c.Tier), "multi")
+				i++
+			case x == 59 && c.N-i > 200 && c.Rng.Chance(1, 6):
+				base := c14GenWorld(c.Rng, c.Tier)
+				at := -1
+				for j, st := range base.Steps {
+					if st.Op == "reconcile" && (at < 0 || c.Rng.Bool()) {
+						at = j
+					}
+				}
+				c14ExhaustWorld(c.Rng, base, at, func(s c14Scn) { run(s, "exhaust-world"); i++ })
+			case x == 59:
+				run(c14GenWorld(c.Rng, c.Tier), "world")
+				i++
 			case x < 3:
 				run(c14GenName(c.Rng), "")
 				i++
